@@ -359,6 +359,12 @@ theorem gs_unfarmAndWithdraw {cfg : Cfg} {s s' : State} {app user pool amt x y :
   rename_i s2 id h2
   exact (gs_unfarm h1).trans ((gs_withdrawReq h2).trans (gs_execWithdraw h))
 
+theorem gs_migrate {cfg : Cfg} {s s' : State} (h : migrate cfg s = some s') : GhostSame s s' := by
+  unfold migrate at h
+  split at h
+  · cases h; exact GhostSame.of_bank rfl
+  · cases h
+
 theorem gs_prePass {cfg : Cfg} {s s' : State} {k : OKey} (h : prePass cfg s k = some s') : GhostSame s s' := by
   unfold prePass at h
   split at h; · cases h
@@ -626,6 +632,7 @@ theorem step_solvent {cfg : Cfg} {s s' : State} {op : Op} (hc : OpConserving op)
   | unfarmAndWithdraw a u p n x y e => exact hs.of_gs (gs_unfarmAndWithdraw h)
   | endBlock a ms ds ws => exact endBlock_solvent hc hs h
   | beginBlock a => simp only [step, Option.some.injEq] at h; subst h; exact hs.of_gs (GhostSame.of_bank rfl)
+  | migrate => exact hs.of_gs (gs_migrate h)
 
 theorem stepT_solvent {cfg : Cfg} {s : State} {op : Op} (hc : OpConserving op) (hs : Solvent s) : Solvent (stepT cfg s op) := by
   unfold stepT
